@@ -89,6 +89,8 @@ func main() {
 		os.Exit(cmdS2C(os.Args[2:]))
 	case "rnl":
 		os.Exit(cmdRNL(os.Args[2:]))
+	case "r2i":
+		os.Exit(cmdR2I(os.Args[2:]))
 	case "list":
 		ids := []string{}
 		for id := range registry {
